@@ -231,4 +231,56 @@ theorem takeP_marker_never_replaces (c : Cfg) (s : St) (pk j : Nat) (m : List Bo
     · cases hr; simp
     · cases hr
 
+/-- the index path: the marker never replaces an entry under the INDEX key (served when it parses; left alone
+by `SET NX` when its DEL failed; overwritten only by the index entry of a found row). -/
+theorem qindex_marker_never_replaces (c : Cfg) (s : St) (a j : Nat) (m : List Bool) (dbf : Bool) (e : Entry)
+    (he : s.cache (c.slot (.x a)) = some e) (hrow : e.val ≠ .ph)
+    (hkeep : parses (.x a) e.val = true ∨ failAt m 1 = true) :
+    ∀ e', (qindex c s a j m dbf).1.cache (c.slot (.x a)) = some e' → e'.val ≠ .ph := by
+  intro e' h
+  unfold Cfg.slot at he
+  by_cases h0 : failAt m 0 = true
+  · rw [qindex_failfast c s a j m dbf h0] at h
+    simp only [Cfg.slot] at h
+    rw [he] at h; cases h; exact hrow
+  · by_cases hp : parses (.x a) e.val = true
+    · -- the index entry is served; the second Take works on the primary key's slot only
+      obtain ⟨n, hn⟩ : ∃ n, e.val = .pk n := by
+        cases hv : e.val <;> simp [hv, parses] at hp
+        exact ⟨_, rfl⟩
+      have hg : getCache s (c.place (.x a)) (.x a) m = (s, .hit (.pk n), [⟨.get, c.place (.x a), [.x a], false⟩]) := by
+        simp [getCache, h0, he, hn, parses]
+      unfold qindex at h
+      rw [hg] at h
+      simp only [] at h
+      rcases takeP_writes c s n j (m.drop 1) dbf (c.slot (.x a)) with h1 | h1 | ⟨hk, _⟩
+      · simp only [List.length_singleton] at h
+        rw [h1] at h; simp only [Cfg.slot] at h; rw [he] at h; cases h; exact hrow
+      · simp only [List.length_singleton] at h
+        rw [h1] at h; cases h
+      · simp [Cfg.slot] at hk
+    · have h11 : failAt m 1 = true := by
+        rcases hkeep with h | h
+        · exact absurd h hp
+        · exact h
+      have hg : getCache s (c.place (.x a)) (.x a) m
+          = (s, .miss, [⟨.get, c.place (.x a), [.x a], false⟩, ⟨.del, c.place (.x a), [.x a], true⟩]) := by
+        simp [getCache, h0, he, hrow, hp, h11]
+      unfold qindex at h
+      rw [hg] at h
+      simp only [] at h
+      split at h
+      · simp only [Cfg.slot] at h; rw [he] at h; cases h; exact hrow
+      · split at h
+        · rw [setnx_occupied (by unfold Cfg.slot; exact he)] at h
+          simp only [Cfg.slot] at h; rw [he] at h; cases h; exact hrow
+        · split at h
+          · simp only [Cfg.slot] at h; rw [he] at h; cases h; exact hrow
+          · simp only [setex, Cfg.slot] at h
+            split at h
+            · simp [upd, he] at h
+              subst h; exact hrow
+            · simp [upd] at h
+              rw [← h]; simp
+
 end GoZero.C06
